@@ -2528,6 +2528,7 @@ template <class R>
 void SoPlexBase<R>::_resetBoostedPrecision()
 {
    _statistics->precBoosts = 0;
+   _boostingLimitReached = false;
 #ifdef SOPLEX_WITH_MPFR
    _setBoostedPrecisionDigits(50);
 #endif
